@@ -47,17 +47,23 @@ class Gen:
         self.mir = ["m_c02: module"]
         self.c = []
         self.cases = []
+        self.bodies = []
+        self.funcs = []
         self.known = known_opcodes()
 
     def func(self, name, sig, body):
+        start = len(self.mir)
         self.mir.append("%s: func %s" % (name, sig))
         lab = "L%d" % len(self.mir)  # labels are module-scoped in MIR text
         self.mir += ["  " + l.replace("L1", lab) for l in body]
         self.mir.append("  endfunc")
+        self.last_func = self.mir[start:]
 
     def case(self, name, ccode, sample, heavy=False, group="int"):
         fid = len(self.cases)
         self.c.append("#define FID_%s %d\nvoid harness_%s (void) {\n  h_interp_init ();\n%s\n  H_WITNESS (\"end\");\n}\n" % (name, fid, name, ccode))
+        self.bodies.append("void harness_%s (void) {\n  h_interp_init ();\n%s\n  H_WITNESS (\"end\");\n}\n" % (name, ccode))
+        self.funcs.append(self.last_func)
         self.cases.append({"name": name, "entry": "harness_" + name, "sample": sample, "heavy": heavy, "group": group})
 
     def have(self, op):
@@ -116,6 +122,92 @@ class Gen:
         self.case(n, "  %s a = h_nd_%s (), b = h_nd_%s ();\n  %s got = h_run_%s2 (FID_%s, a, b), exp = ref_%s (a, b);\n"
                      "  H_ASSERT (h_same_%s (got, exp), \"%s: result equals the IEEE operation\");" % (ct, t, t, ct, t, n, full, t, full),
                   "%s: all %s bit patterns" % (full.lower(), ct), heavy=(p == "LD" or op in ("MUL", "DIV")), group="fp")
+
+    # ---- both operands compile-time constants: what GVN/CCP constant folding must reproduce (generated-code leg only) ----
+    def int3cc(self, op, c1, c2, k):
+        if not self.have(op): return
+        w = 32 if is_s(op) else 64
+        m = (1 << w) - 1
+        u2 = c2 & m
+        sx = lambda v: (v & m) - (1 << w) if (v & m) >> (w - 1) else (v & m)
+        if op.rstrip("S") in ("DIV", "MOD") or op in ("DIVS", "MODS"):
+            if sx(c2) == 0 or (sx(c1) == -(1 << (w - 1)) and sx(c2) == -1): return
+        if op.startswith(("UDIV", "UMOD")) and u2 == 0: return
+        if "SH" in op and not (0 <= (c2 & ((1 << 64) - 1)) < w): return
+        lo = "REF_LOW32" if is_s(op) else ""
+        n = "i3cc_%s_%d" % (op, k)
+        lit = lambda v: "%d" % v if v != -0x8000000000000000 else "-9223372036854775808"
+        self.func("f_" + n, "i64, i64:a, i64:b", ["local i64:r, i64:x, i64:y", "mov x, %s" % lit(c1), "mov y, %s" % lit(c2),
+                                                   "%s r, x, y" % op.lower(), "ret r"])
+        cl = lambda v: "((uint64_t) 1 << 63)" if v == -0x8000000000000000 else "(uint64_t) %dll" % v
+        self.case(n, "  uint64_t a = nd (), b = nd ();\n  uint64_t got = h_run_i2 (FID_%s, a, b), exp = ref_%s (%s, %s);\n"
+                     "  H_ASSERT (%s (got) == %s (exp), \"%s of two constants: result equals MIR.md semantics (constant folding)\");"
+                  % (n, op, cl(c1), cl(c2), lo, lo, op),
+                  "mov x,%d; mov y,%d; %s r,x,y (both operands compile-time constants)" % (c1, c2, op.lower()), group="constfold")
+        self.cases[-1]["gen_only"] = True
+
+    # ---- memory operands inside arithmetic/compare insns (the combiner folds loads/stores into x86 memory forms) ----
+    def int3mem(self, op, shape):
+        if not self.have(op): return
+        s32 = is_s(op)
+        mt, ct, sz = ("i32", "int32_t", 4) if s32 else ("i64", "int64_t", 8)
+        pre = pre_of(op)
+        lo = "REF_LOW32" if s32 else ""
+        n = "i3m_%s_%s" % (op, shape)
+        mem = "%s:8(p)" % mt
+        fill = "  uint8_t buf[64];\n  for (int k = 0; k < 64; k += 8) { uint64_t w = nd (); memcpy (buf + k, &w, 8); }\n" \
+               "  %s mv; memcpy (&mv, buf + 24, %d); uint64_t m = (uint64_t) (int64_t) mv;\n" % (ct, sz)
+        if shape == "rmi":      # r = mem op imm8
+            imm = 5 if "SH" not in op else 3
+            self.func("f_" + n, "i64, i64:p, i64:b", ["local i64:r", "%s r, %s, %d" % (op.lower(), mem, imm), "ret r"])
+            body = fill + "  uint64_t a = m, b = %d; (void) nd ();\n" % imm
+            call = "h_run_i2 (FID_%s, (uint64_t) (uintptr_t) (buf + 16), 0)" % n
+        elif shape == "rmr":    # r = mem op b
+            self.func("f_" + n, "i64, i64:p, i64:b", ["local i64:r", "%s r, %s, b" % (op.lower(), mem), "ret r"])
+            body = fill + "  uint64_t a = m, b = nd ();\n"
+            call = "h_run_i2 (FID_%s, (uint64_t) (uintptr_t) (buf + 16), b)" % n
+        elif shape == "rrm":    # r = b op mem
+            self.func("f_" + n, "i64, i64:p, i64:b", ["local i64:r", "%s r, b, %s" % (op.lower(), mem), "ret r"])
+            body = fill + "  uint64_t a = nd (), b = m;\n"
+            call = "h_run_i2 (FID_%s, (uint64_t) (uintptr_t) (buf + 16), a)" % n
+        else:                   # mrr: mem = a op b (memory destination)
+            self.func("f_" + n, "i64, i64:p, i64:a, i64:b", ["%s %s, a, b" % (op.lower(), mem), "ret 0"])
+            body = fill + "  uint64_t a = nd (), b = nd ();\n  uint8_t old[64]; memcpy (old, buf, 64);\n"
+            call = None
+        if pre: body += "  H_ASSUME (%s (a, b));\n" % pre
+        if call:
+            body += "  uint64_t got = %s, exp = ref_%s (a, b);\n" % (call, op)
+            body += "  H_ASSERT (%s (got) == %s (exp), \"%s with a memory operand (%s): result equals MIR.md semantics\");" % (lo, lo, op, shape)
+        else:
+            body += "  h_run_i3 (FID_%s, (uint64_t) (uintptr_t) (buf + 16), a, b);\n" % n
+            body += "  { uint64_t exp = ref_%s (a, b); memcpy (old + 24, &exp, %d); }\n" % (op, sz)
+            body += "  H_ASSERT (memcmp (old, buf, 64) == 0, \"%s with a memory destination: exactly the addressed bytes hold the truncated result\");" % op
+        heavy = op.startswith(("MUL", "DIV", "UDIV", "MOD", "UMOD"))
+        self.case(n, body, "%s with %s operand form %s; memory contents and registers symbolic" % (op.lower(), mt, shape), heavy, group="memop")
+
+    # ---- store followed by an overlapping load of another size / displacement (memory availability, aliasing, DSE) ----
+    def memov(self, where, s2, d2, s1, d1, k):
+        ty = {1: "u8", 2: "u16", 4: "u32", 8: "i64"}
+        cty = {1: "uint8_t", 2: "uint16_t", 4: "uint32_t", 8: "uint64_t"}
+        n = "mov_%s_%d" % (where, k)
+        if where == "arg":
+            self.func("f_" + n, "i64, i64:p, i64:v", ["local i64:r", "mov %s:%d(p), v" % (ty[s2], d2), "mov r, %s:%d(p)" % (ty[s1], d1), "ret r"])
+            body = "  uint8_t buf[64];\n  for (int k = 0; k < 64; k += 8) { uint64_t w = nd (); memcpy (buf + k, &w, 8); }\n" \
+                   "  uint64_t v = nd ();\n  uint8_t m[64]; memcpy (m, buf, 64); { %s t = (%s) v; memcpy (m + 16 + %d, &t, %d); }\n" \
+                   "  %s e; memcpy (&e, m + 16 + %d, %d);\n" \
+                   "  uint64_t got = h_run_i2 (FID_%s, (uint64_t) (uintptr_t) (buf + 16), v);\n" \
+                   "  H_ASSERT (got == (uint64_t) e, \"load after an overlapping store of another size sees the stored bytes\");\n" \
+                   "  H_ASSERT (memcmp (m, buf, 64) == 0, \"the store is performed (not removed as dead)\");" \
+                   % (cty[s2], cty[s2], d2, s2, cty[s1], d1, s1, n)
+        else:  # alloca'd block, first fully defined by two 64-bit stores
+            self.func("f_" + n, "i64, i64:i, i64:v", ["local i64:r, i64:p", "alloca p, 16", "mov i64:(p), i", "mov i64:8(p), i",
+                                                       "mov %s:%d(p), v" % (ty[s2], d2), "mov r, %s:%d(p)" % (ty[s1], d1), "ret r"])
+            body = "  uint64_t i = nd (), v = nd ();\n  uint8_t m[16]; memcpy (m, &i, 8); memcpy (m + 8, &i, 8);\n" \
+                   "  { %s t = (%s) v; memcpy (m + %d, &t, %d); }\n  %s e; memcpy (&e, m + %d, %d);\n" \
+                   "  uint64_t got = h_run_i2 (FID_%s, i, v);\n" \
+                   "  H_ASSERT (got == (uint64_t) e, \"load from an alloca block after an overlapping store of another size sees the stored bytes\");" \
+                   % (cty[s2], cty[s2], d2, s2, cty[s1], d1, s1, n)
+        self.case(n, body, "%s: store %s at +%d then load %s at +%d (overlapping, different size/displacement)" % (where, ty[s2], d2, ty[s1], d1), group="memov")
 
     def fp3imm(self, p, op, imm, second=True):
         """floating-point op with an IMMEDIATE operand (link-time shortcuts / operand lowering must keep IEEE results, e.g. -0.0 + 0.0 = +0.0)"""
@@ -311,6 +403,30 @@ class Gen:
             for imm in ([1, 31, 32, 63] if tier == "thorough" else [1, 63]): self.int3(o, "imm", imm)
         for o in ["LSHS", "RSHS", "URSHS"]:
             for imm in ([1, 31] if tier == "thorough" else [31]): self.int3(o, "imm", imm)
+        # constant folding pairs (gen leg only)
+        CC = [(5, 0x80000000), (0x80000000, 5), (-1, 1), (1, -1), (0x100000005, 7), (7, 0x100000005), (0xffffffff, 0x100000000),
+              (0x80000000, 0x80000000), (-0x8000000000000000, 0x7fffffffffffffff), (0x7fffffff, -0x80000000), (12, 3), (-12, 5),
+              (0xfffffff9, 2), (1, 31), (0x80000001, 63), (3, 0)]
+        if tier == "quick": CC = CC[:6] + CC[13:15]
+        for op in INT3:
+            for o in (op, op + "S"):
+                for k, (c1, c2) in enumerate(CC): self.int3cc(o, c1, c2, k)
+        # memory operand forms
+        for op in INT3:
+            for o in (op, op + "S"):
+                for sh in (("rmi", "rmr", "rrm", "mrr") if tier == "thorough" or op in ("ADD", "SUB", "AND", "EQ", "LT", "ULT", "NE", "LSH", "MUL", "GE", "ULE") else ("rmi",)):
+                    self.int3mem(o, sh)
+        # overlapping store/load pairs
+        k = 0
+        for where in ("arg", "alloca"):
+            for s2, d2 in ((8, 0), (4, 4), (2, 2), (1, 5), (8, 8)):
+                for s1 in (1, 2, 4, 8):
+                    for d1 in (0, 2, 4, 6, 8, 12):
+                        a0, a1, b0, b1 = d2, d2 + s2, d1, d1 + s1
+                        if not (a0 < b1 and b0 < a1) or (s1 == s2 and d1 == d2) or b1 > 16: continue
+                        if tier == "quick" and (k % 3) != 0:
+                            k += 1; continue
+                        self.memov(where, s2, d2, s1, d1, k); k += 1
         for op in INT2: self.int2(op)
         for p in ("F", "D"):
             for op in FP3:
@@ -344,6 +460,19 @@ def main():
     os.makedirs(outdir, exist_ok=True)
     open(os.path.join(outdir, "c02.mir"), "w").write("\n".join(g.mir) + "\n")
     open(os.path.join(outdir, "c02_cases.h"), "w").write("\n".join(g.c))
+    # per-group files for the interpreter leg: small translation units keep CBMC's counterexample traces printable
+    # (with ~1000 functions of static icode in one unit, cbmc dies while building the trace and nothing can be replayed)
+    G = 24
+    for gi in range(0, len(g.cases), G):
+        grp = gi // G
+        with open(os.path.join(outdir, "c02_g%d.mir" % grp), "w") as f:
+            f.write("m_c02_g%d: module\n" % grp)
+            for fl in g.funcs[gi:gi + G]: f.write("\n".join(fl) + "\n")
+            f.write("  endmodule\n")
+        with open(os.path.join(outdir, "c02_cases_g%d.h" % grp), "w") as f:
+            for k, c in enumerate(g.cases[gi:gi + G]):
+                f.write("#define FID_%s %d\n%s\n" % (c["name"], k, g.bodies[gi + k]))
+        for c in g.cases[gi:gi + G]: c["interp_group"] = grp
     json.dump(g.cases, open(os.path.join(outdir, "c02_cases.json"), "w"), indent=1)
     print(len(g.cases))
 
